@@ -61,6 +61,7 @@ BYTE_WRITERS = ("write_header_and_update_offset", "update_row_count", "Write")
 # resolved calls); every other rule of this check is a template rule (vcheck.core.Check.obt)
 SEMANTIC = ('R03.1a', 'R03.1b', 'R03.1c', 'R03.1e', 'R03.2b', 'R03.2c', 'R03.2d', 'R03.2f', 'R03.3d', 'R03.4c', 'R03.5', 'R03.8',
             'R03.6::esutil.sfile.write::append=', 'R03.6::esutil.sfile.write::header-option-reaches-SFile.write',
+            'R03.6::esutil.sfile.write::append-option-reaches-every-writing-path', 'R03.3f',
             'R03.7::esutil.recfile.Util.Recfile.write::text-chunk-native')
 
 
@@ -97,6 +98,7 @@ def run(chk):
     measures = []       # (who, expression, chunk parameter, where): what the Python side adds to / records as the row count
     first_fmts = set()  # printf-style formats that _write_header applies itself to produce the SIZE line of a new file
     r03_3(chk, repo, measures, first_fmts)
+    r03_3f(chk, repo, SFile_open)
     r03_4(chk, repo, cfun, ceff, first_fmts)
     r03_5(chk, cfun, ceff)
     r03_6(chk, repo, sf_write, cfun)
@@ -830,6 +832,12 @@ class _PX:
             loc[t.elts[1].id] = elem(itv.args[0])
         elif fn == "range" and isinstance(t, ast.Name) and len(itv.args) == 1:
             loc[t.id] = idx
+        elif isinstance(itv, ast.Call) and isinstance(itv.func, ast.Attribute) and itv.func.attr == "items" and not itv.args \
+                and not itv.keywords and isinstance(t, (ast.Tuple, ast.List)) and len(t.elts) == 2 \
+                and all(isinstance(x, ast.Name) for x in t.elts):
+            # for k, v in d.items(): k is what `for k in d` gives, v is d[k]
+            loc[t.elts[0].id] = elem(itv.func.value)
+            loc[t.elts[1].id] = ast.Subscript(value=copy.deepcopy(itv.func.value), slice=elem(itv.func.value), ctx=ast.Load())
         elif isinstance(t, ast.Name):
             loc[t.id] = elem(itv)
         else:
@@ -2378,6 +2386,236 @@ def r03_3(chk, repo, measures, first_fmts=None):
                    else "no row-count update recognised"))
 
 
+# -- R03.3f: the handle state of a reopened file comes from the reserved header entries -------------------------------------------
+#
+# An append that reopens the file starts from what SFile.open takes out of the stored header: the row count it will add to
+# (`_SIZE`, filled in by read_header from the SIZE line), the dtype the chunk is compared with (`_DTYPE`) and the delimiter that
+# selects the text / binary arm (`_DELIM`).  The stored header also holds the USER's entries, whose names the property
+# quantifies over.  Necessary condition: the entry that supplies each of the three is selected by EQUALITY of its name with the
+# reserved name (exactly, or after case folding; by ==, membership in a collection of names, list.index, a dict lookup).  When
+# the selecting test is a relation between strings that is weaker than equality - substring (`in` with a string on the right),
+# prefix / suffix (startswith / endswith), find/count/index on a string - some user header (`psf_size`, `bin_size` ...) has an
+# entry that satisfies it too, and the count / dtype / delimiter of the handle is then taken from the user's entry.
+#
+# Decided on the paths of SFile.open with the lookup helpers followed (read_header itself is not entered): every comparison,
+# string-method call and subscript that involves the reserved name, in the branch outcomes of the path and in the values the
+# path stores / hands to the record-file constructor, is classified with a three-valued operand type (string / collection /
+# unknown; a key of the header dict and the result of a str method are strings, displays, comprehensions, list()/sorted()/
+# .keys() and the header dict are collections).  A string relation is a violation when the entry it selects is the one that is
+# stored (it occurs in the stored term, or the key it tested does); an equality-type selection passes; nothing recognised = no
+# verdict.
+_RESERVED_ENTRIES = ("_size", "_dtype", "_delim")
+_STR_METHODS = ("lower", "upper", "casefold", "strip", "lstrip", "rstrip", "title", "capitalize", "swapcase", "replace", "format",
+                "join", "encode", "decode", "ljust", "rjust", "center", "zfill", "expandtabs", "removeprefix", "removesuffix")
+_STR_RELATIONS = ("startswith", "endswith", "find", "rfind", "index", "rindex", "count", "__contains__", "partition", "rpartition")
+_STR_ONLY_RELATIONS = ("startswith", "endswith", "find", "rfind", "rindex", "partition", "rpartition")
+_COLL_CALLS = ("list", "tuple", "set", "frozenset", "sorted", "dict", "OrderedDict", "iter", "reversed", "map", "filter")
+_COLL_METHODS = ("keys", "values", "items", "split", "rsplit", "splitlines", "copy")
+_LOOP_INDEX = re.compile(r"^__i\d+__$")
+
+
+class _KeySelection:
+    """witnesses of how a header entry is related to the reserved name `name`: ('eq', node), ('sub', node, key side, enclosing
+    comprehension), ('unk', node)"""
+
+    def __init__(self, name, hdr):
+        self.name = name
+        self.hdr = set(hdr)     # texts of the terms that stand for the header dict
+        self.out = []
+
+    def wanted(self, x, loose=False):
+        for c in ast.walk(x):
+            if isinstance(c, ast.Constant) and isinstance(c.value, str):
+                v = c.value.lower()
+                if v == self.name or (loose and len(v) >= 3 and (v in self.name or self.name in v)):
+                    return True
+        return False
+
+    def is_hdr(self, e):
+        return norm(e) in self.hdr
+
+    def keys_coll(self, e, depth=0):
+        """a collection whose elements are the names of the header entries"""
+        if depth > 4:
+            return False
+        if self.is_hdr(e):
+            return True
+        if isinstance(e, ast.Call) and not e.keywords:
+            if isinstance(e.func, ast.Name) and e.func.id in ("list", "tuple", "sorted", "set", "frozenset", "iter", "reversed") and len(e.args) == 1:
+                return self.keys_coll(e.args[0], depth + 1)
+            if isinstance(e.func, ast.Attribute) and e.func.attr == "keys" and not e.args:
+                return self.is_hdr(e.func.value)
+        return False
+
+    def typ(self, e, env):
+        if isinstance(e, ast.Constant):
+            return "str" if isinstance(e.value, (str, bytes)) else None
+        if isinstance(e, ast.JoinedStr):
+            return "str"
+        if isinstance(e, ast.Name):
+            return env.get(e.id)
+        if isinstance(e, ast.Call):
+            if isinstance(e.func, ast.Attribute):
+                if e.func.attr in _STR_METHODS:
+                    return "str"
+                if e.func.attr in _COLL_METHODS:
+                    return "coll"
+            elif isinstance(e.func, ast.Name):
+                if e.func.id == "str":
+                    return "str"
+                if e.func.id in _COLL_CALLS:
+                    return "coll"
+            return None
+        if isinstance(e, ast.BinOp) and isinstance(e.op, (ast.Mod, ast.Add)):
+            return "str" if "str" in (self.typ(e.left, env), self.typ(e.right, env)) else None
+        if isinstance(e, ast.Subscript):
+            if isinstance(e.slice, ast.Slice):
+                return self.typ(e.value, env)
+            if isinstance(e.slice, ast.Name) and _LOOP_INDEX.match(e.slice.id) and self.keys_coll(e.value):
+                return "str"        # the element of an iteration over the header: one of its keys
+            return None
+        if isinstance(e, (ast.List, ast.Tuple, ast.Set, ast.Dict) + _COMPS) or self.is_hdr(e):
+            return "coll"
+        return None
+
+    def scan(self, x, env=None, comp=None):
+        env = env or {}
+        if isinstance(x, _COMPS):
+            env = dict(env)
+            comp = comp or x
+            for g in x.generators:
+                self.scan(g.iter, env, comp)
+                if isinstance(g.target, ast.Name) and self.keys_coll(g.iter):
+                    env[g.target.id] = "str"
+                elif isinstance(g.target, (ast.Tuple, ast.List)) and len(g.target.elts) == 2 and isinstance(g.target.elts[0], ast.Name) \
+                        and isinstance(g.iter, ast.Call) and isinstance(g.iter.func, ast.Attribute) and g.iter.func.attr == "items" \
+                        and self.is_hdr(g.iter.func.value):
+                    env[g.target.elts[0].id] = "str"
+                else:
+                    for n in ast.walk(g.target):
+                        if isinstance(n, ast.Name):
+                            env.pop(n.id, None)
+                for c in g.ifs:
+                    self.scan(c, env, comp)
+            for part in ([x.key, x.value] if isinstance(x, ast.DictComp) else [x.elt]):
+                self.scan(part, env, comp)
+            return
+        if isinstance(x, ast.Compare) and len(x.ops) == 1:
+            l, r, op = x.left, x.comparators[0], x.ops[0]
+            if isinstance(op, (ast.Eq, ast.NotEq, ast.Is, ast.IsNot)):
+                if self.wanted(l) or self.wanted(r):
+                    self.out.append(("eq", x))
+            elif isinstance(op, (ast.In, ast.NotIn)):
+                t = self.typ(r, env)
+                if self.wanted(l, loose=True) and not self.wanted(r):
+                    if t == "str":
+                        self.out.append(("sub", x, r, comp))      # the reserved name is looked for INSIDE a string
+                    elif self.wanted(l):
+                        self.out.append(("eq", x) if t == "coll" else ("unk", x))
+                elif self.wanted(r, loose=True) and not self.wanted(l):
+                    if t == "str":
+                        self.out.append(("sub", x, l, comp))      # an entry name is looked for inside the reserved name
+                    elif self.wanted(r):
+                        self.out.append(("eq", x) if t == "coll" else ("unk", x))
+        elif isinstance(x, ast.Call) and isinstance(x.func, ast.Attribute):
+            a, recv = x.func.attr, x.func.value
+            arg = x.args[0] if x.args else None
+            if a in _STR_RELATIONS and arg is not None:
+                if self.wanted(arg, loose=True) and not self.wanted(recv):
+                    t = self.typ(recv, env)
+                    if t == "str" or a in _STR_ONLY_RELATIONS:
+                        self.out.append(("sub", x, recv, comp))
+                    elif self.wanted(arg):
+                        self.out.append(("eq", x) if t == "coll" else ("unk", x))
+                elif self.wanted(recv, loose=True) and not self.wanted(arg) and (self.typ(recv, env) == "str" or a in _STR_ONLY_RELATIONS):
+                    self.out.append(("sub", x, arg, comp))
+            elif a in ("get", "pop", "setdefault") and arg is not None and self.wanted(arg):
+                self.out.append(("eq", x))
+            elif (dotted_name(x.func) or "").split(".")[0] in ("re", "fnmatch") and any(self.wanted(y, loose=True) for y in x.args):
+                self.out.append(("unk", x))
+        elif isinstance(x, ast.Subscript) and not isinstance(x.slice, ast.Slice) and self.wanted(x.slice):
+            self.out.append(("eq", x))
+        for c in ast.iter_child_nodes(x):
+            self.scan(c, env, comp)
+
+
+def _key_base(e):
+    """the entry name a string term was made from: k.lower().strip() -> k"""
+    while True:
+        if isinstance(e, ast.Call) and isinstance(e.func, ast.Attribute) and e.func.attr in _STR_METHODS:
+            e = e.func.value
+        elif isinstance(e, ast.Subscript) and isinstance(e.slice, ast.Slice):
+            e = e.value
+        elif isinstance(e, ast.Call) and isinstance(e.func, ast.Name) and e.func.id == "str" and len(e.args) == 1:
+            e = e.args[0]
+        else:
+            return e
+
+
+def r03_3f(chk, repo, SFile_open):
+    """reopened file: count / dtype / delimiter of the handle come from the reserved header entries, selected by name equality"""
+    try:
+        paths = [st for k, _, st in _PX(repo, stop=("read_header", "close")).run(SFile_open, {}) if k == "return"]
+    except _TooBig:
+        paths = []
+    for name in _RESERVED_ENTRIES:
+        neq, bad, loose_ends, line = 0, [], [], None
+        for st in paths:
+            hdr = {"self._hdr", "self.read_header()"} | {norm(v) for v in st.heap.values()
+                                                        if isinstance(v, ast.Call) and call_name(v) == "read_header"}
+            kept = []       # the terms this path keeps: stored on the handle or handed to the record-file constructor
+            for e in st.events:
+                if e["kind"] == "store":
+                    kept.append((e["value"], e["line"], e["fn"]))
+                elif e["kind"] == "call" and e["name"] == "Recfile":
+                    kept.extend((a, e["line"], e["fn"]) for a in list(e["args"]) + [v for k, v in e["kw"].items()])
+            kept_text = [norm(v) for v, _, _ in kept if isinstance(v, ast.AST)]
+            wit = []
+            for v, ln, fn in kept:
+                if isinstance(v, ast.AST):
+                    ks = _KeySelection(name, hdr)
+                    ks.scan(v)
+                    wit.extend((w, True, ln, fn) for w in ks.out)
+            for _, _, x, w in st.facts:
+                if isinstance(x, ast.AST):
+                    ks = _KeySelection(name, hdr)
+                    ks.scan(x)
+                    for wt in ks.out:
+                        linked = False
+                        if wt[0] == "sub":
+                            comp, base = wt[3], _key_base(wt[2])
+                            probe = norm(comp) if comp is not None else norm(base)
+                            linked = (comp is not None or not isinstance(base, ast.Constant)) and any(probe in t for t in kept_text)
+                        wit.append((wt, linked, w[1], w[0]))
+            for wt, linked, ln, fn in wit:
+                if wt[0] == "eq":
+                    neq += 1
+                elif wt[0] == "sub":
+                    msg = "line %s (%s): `%s` relates the reserved entry name %r to an entry name as strings, not by equality" \
+                          % (ln, fn.name, norm(wt[1])[:90], name.upper())
+                    if linked:
+                        bad.append(msg)
+                        line = "%s:%s" % (fn.where().rsplit(":", 1)[0], ln)
+                    else:
+                        loose_ends.append(msg + " (not seen to select the entry that is kept)")
+                else:
+                    loose_ends.append("line %s (%s): `%s`: kind of the right-hand operand not recognised" % (ln, fn.name, norm(wt[1])[:90]))
+        if bad:
+            verdict = False
+        elif neq and not any("as strings" in m for m in loose_ends):
+            verdict = True
+        else:
+            verdict = None
+        chk.ob("R03.3f", "esutil.sfile.SFile.open::reserved-entry-selected-by-name-equality::%s" % name.upper(), verdict,
+               line or SFile_open.where(),
+               "%son reopening a file the handle takes its %s from the header entry whose name EQUALS the reserved name %r (a user entry "
+               "such as 'psf%s' must never be taken for it): %d equality-type selection(s) on %d path(s)"
+               % (("; ".join(sorted(set(bad))[:3]) + " -- rule: ") if bad else
+                  (("; ".join(sorted(set(loose_ends))[:3]) + " -- rule: ") if verdict is None and loose_ends else ""),
+                  {"_size": "row count (what an append adds to)", "_dtype": "dtype (what a chunk is compared with)",
+                   "_delim": "delimiter (text or binary arm)"}[name], name.upper(), name, neq, len(paths)))
+
+
 # ---------------------------------------------------------------------------
 # C++ side: what a function does to the data stream, in order (used by R03.4c and R03.5).
 #
@@ -3091,6 +3329,74 @@ def _header_origin(v, key="header", depth=0):
     return False
 
 
+def _append_reaches_every_path(chk, repo, sf_write, paths):
+    """R03.6 append-option-reaches-every-writing-path.  The rules above judge the mode of the SFile(...) constructions they find on
+    the paths of sfile.write; this one closes the gap "a path on which none is found".  Whether a call appends or replaces is
+    decided by the caller's append option alone, so every normal return of sfile.write must either open the SFile itself (judged
+    above) or hand the whole job to a function that still knows the option.  A path that re-dispatches to sfile.write itself
+    (argument-order normalisation, keyword clean-up ...) must therefore pass `append` on: as append=<the option>, or inside the
+    caller's own **keywords.  An inner call that is made without it behaves the same for append=True and append=False, while
+    the property demands two different results (concatenation vs. replacement) - a violation for every input.  Delegation to
+    another function that cannot be followed, or a normal return that writes nothing, is 'not recognised'."""
+    kwname = sf_write.node.args.kwarg.arg if sf_write.node.args.kwarg is not None else None
+    fpath = sf_write.where().rsplit(":", 1)[0]
+    verdict, bad, unrec, line = True, [], [], None
+    n_direct = n_deleg = 0
+    for st in paths:
+        if _calls(st, "SFile"):
+            n_direct += 1
+            continue
+        deleg, other = [], []
+        for e in st.events:
+            if e["kind"] != "call" or e["recv"] is not None or not e["dotted"] or "." in e["dotted"]:
+                continue
+            callee = repo.funcs.get("%s.%s" % (e["fn"].module.name, e["dotted"]))
+            if callee is None or callee.cls is not None:
+                continue
+            (deleg if callee.qualname == sf_write.qualname else other).append(e)
+        if not deleg:
+            unrec.append("a normal return on which no SFile is opened%s"
+                         % (" (the job is handed to %s, which was not followed)" % ", ".join(sorted({e["dotted"] for e in other})) if other else ""))
+            continue
+        for e in deleg:
+            n_deleg += 1
+            truth = _append_truth(st, e["nfacts"])
+            kw = e["kw"]
+            if "append" in kw:
+                v = kw["append"]
+                if isinstance(v, ast.Constant):
+                    good = truth is not None and bool(v.value) == truth
+                    cls = True if good else False
+                else:
+                    cls = _header_origin(v, key="append")
+                what = "append=%s" % norm(v)[:40]
+            elif "**" in kw:
+                v = kw["**"]
+                cls = True if (isinstance(v, ast.Name) and v.id == kwname) else None
+                what = "**%s" % norm(v)[:40]
+            else:
+                cls = True if truth is False else False
+                what = "no append keyword (forwarded: %s)" % (sorted(kw) or "nothing")
+            if cls is True:
+                continue
+            if cls is False:
+                line = e["line"]
+                bad.append("line %s: sfile.write re-dispatches to itself with %s, so the inner call does not know the caller's append option"
+                           % (e["line"], what))
+            else:
+                unrec.append("line %s: re-dispatch with %s: relation to the caller's append option not recognised" % (e["line"], what))
+    if bad:
+        verdict = False
+    elif unrec or not paths:
+        verdict = None
+    chk.ob("R03.6", "esutil.sfile.write::append-option-reaches-every-writing-path", verdict,
+           "%s:%s" % (fpath, line) if line else sf_write.where(),
+           "%severy normal return of sfile.write either opens the SFile itself with the mode chosen from the caller's append option, or "
+           "re-dispatches with that option passed on (%d direct path(s), %d re-dispatch(es))"
+           % (("; ".join(sorted(set(bad))[:3]) + " -- rule: ") if bad else (("; ".join(sorted(set(unrec))[:3]) + " -- rule: ") if unrec else ""),
+              n_direct, n_deleg))
+
+
 def r03_6(chk, repo, sf_write, cfun):
     """overwrite: append false => literal mode 'w' reaches SFile(...); fopen gets the mode unmodified"""
     try:
@@ -3166,6 +3472,7 @@ def r03_6(chk, repo, sf_write, cfun):
            "%son every path of sfile.write (append or not: an append to a missing file creates it) the header handed to SFile.write "
            "is the caller's header= option (%d path(s))"
            % ("" if not bad else "user header dropped: " + "; ".join(sorted(set(bad))[:4]) + " -- rule: ", npaths))
+    _append_reaches_every_path(chk, repo, sf_write, paths)
     sp = cfun.get("Records::set_fptr") or cfun.get("set_fptr")
     ok = False
     if sp is not None:
